@@ -15,7 +15,12 @@ import re
 import sys
 import urllib.parse
 
-LOG = []          # calls of harness worker functions: (name, args, kwargs-items)
+import contextvars
+
+LOG = []          # calls of harness worker functions: (who, name, args, kwargs-items)
+# which side made the call: "A" = tasks started by a session's commands, "B" = tasks started by the
+# direct call on the twin pool (tasks inherit the context of the task that created them)
+WHO = contextvars.ContextVar("who", default="?")
 
 
 def _consume(args, kwargs):
@@ -29,32 +34,32 @@ def _consume(args, kwargs):
 
 
 async def work(*args, **kwargs):
-    LOG.append(("work", repr(args), repr(sorted(kwargs.items()))))
+    LOG.append((WHO.get(), "work", repr(args), repr(sorted(kwargs.items()))))
     _consume(args, kwargs)
     await asyncio.sleep(0)
 
 
 async def work2(*args, **kwargs):
-    LOG.append(("work2", repr(args), repr(sorted(kwargs.items()))))
+    LOG.append((WHO.get(), "work2", repr(args), repr(sorted(kwargs.items()))))
     _consume(args, kwargs)
     await asyncio.sleep(0)
     await asyncio.sleep(0)
 
 
 async def slow(*args, **kwargs):
-    LOG.append(("slow", repr(args), repr(sorted(kwargs.items()))))
+    LOG.append((WHO.get(), "slow", repr(args), repr(sorted(kwargs.items()))))
     await asyncio.sleep(3600)
 
 
 async def boom(*args, **kwargs):
     """A worker that fails: a later flush / gather-and-close without -r then raises its exception."""
-    LOG.append(("boom", repr(args), repr(sorted(kwargs.items()))))
+    LOG.append((WHO.get(), "boom", repr(args), repr(sorted(kwargs.items()))))
     await asyncio.sleep(0)
     raise RuntimeError("boom " + repr(args) + repr(sorted(kwargs.items())))
 
 
 def cb(task_id):
-    LOG.append(("cb", repr(task_id), ""))
+    LOG.append((WHO.get(), "cb", repr(task_id), ""))
 
 
 def notcoro(*a, **k):
@@ -105,8 +110,9 @@ class FakeServer:
 class Sess:
     """One real session: feed lines, collect the chunks written back."""
 
-    def __init__(self, pool, width=10000):
+    def __init__(self, pool, width=10000, tag="A"):
         from asyncio_taskpool.control.session import ControlSession
+        self.tag = tag
         self.reader = asyncio.StreamReader()
         self.writer = FakeWriter()
         self.server = FakeServer(pool)
@@ -117,6 +123,7 @@ class Sess:
 
     async def start(self):
         async def run():
+            WHO.set(self.tag)
             try:
                 await self.session.client_handshake()
                 await self.session.listen()
@@ -146,6 +153,23 @@ class Sess:
 async def settle(rounds=12):
     for _ in range(rounds):
         await asyncio.sleep(0)
+
+
+async def settle_pools(pools, groups=(), quiet=25, limit=4000, extra=lambda: None):
+    """Run the loop until the public observables of all `pools` have not changed for `quiet`
+    consecutive iterations (bounded): a command sent through a session and the same call made
+    directly start at different moments, so long workloads (many tasks on a small pool) must be
+    allowed to run out before the two pools are compared."""
+    last, same = None, 0
+    for _ in range(limit):
+        await asyncio.sleep(0)
+        cur = [pool_obs(p, groups) for p in pools] + [extra()]
+        if cur == last:
+            same += 1
+            if same >= quiet:
+                return
+        else:
+            last, same = cur, 0
 
 
 def pool_obs(pool, groups=()):
@@ -344,6 +368,7 @@ def parse_argval(s):
 async def apply_pycall(pool, surface, py):
     """Perform, directly on `pool`, the call the model predicts ('py <member> <kind> pos= var= kw=')
     and return the reply the session is expected to send."""
+    WHO.set("B")
     w = py.split()
     member, kind = w[1], int(w[2])
     kv = dict(x.split("=", 1) for x in w[3:])
